@@ -9,11 +9,17 @@ var zzRootMenu = []string{
 	"ol{x}", "ol @skip(if:$w){y}", "i", "i(v:3)", "i(w:$k)", "x:i(v:$k,w:2)",
 	"a @skip(if:true)", "a @include(if:false)", "o{x @skip(if:$v) x}", "o{o{y} ...H}",
 	"io(in:{b:\"x\",a:$k})", "li(l:[1,$k])", "o{...H @skip(if:$v) ...H @include(if:$w)}",
+	"io(in:{b:\"y\",c:3})", "li(l:[4,5])", "io(in:{b:\"x\",n:{b:\"y\",a:$k}})", "ol{o{x} n{id}}",
+	"o{...NF}", "q:o{...NF n{id ... on Other{z}}}",
 }
+
+// zzRootMenuCore: indexes of the items that interact (merging, conditions, fragments, abstract types)
+var zzRootMenuCore = []int{0, 2, 5, 7, 8, 9, 10, 14, 15, 17, 22, 26}
 
 const zzFragF = " fragment F on Query{a o{y} ...G}"
 const zzFragG = " fragment G on Query{b o{x @include(if:$w)}}"
 const zzFragH = " fragment H on Obj{y o @skip(if:$v){x}}"
+const zzFragNF = " fragment NF on Obj{n{... on Obj{x}}}"
 
 func zzContains(s, sub string) bool {
 	for i := 0; i+len(sub) <= len(s); i++ {
@@ -38,6 +44,9 @@ func zzBuildDoc(picks []int) string {
 	}
 	if zzContains(body, "...H") {
 		frags += zzFragH
+	}
+	if zzContains(body, "...NF") {
+		frags += zzFragNF
 	}
 	all := body + frags
 	vars := ""
@@ -101,6 +110,11 @@ func ZZ_C01_exec() {
 	nsel := zzParam("W", 2)
 	picks := make([]int, nsel)
 	for i := range picks {
+		if i >= 2 {
+			// a third (and later) selection comes from the core items: the full cube is ~10^5 documents
+			picks[i] = zzRootMenuCore[zzChoice("pick"+zzItoa(i), len(zzRootMenuCore))]
+			continue
+		}
 		picks[i] = zzChoice("pick"+zzItoa(i), len(zzRootMenu))
 	}
 	text := zzBuildDoc(picks)
